@@ -38,6 +38,17 @@ type dbgEnv struct {
 	err      error
 	ended    int32
 	busyDone chan struct{}
+	dead     bool // a call into the debugger did not return (a lock was left behind)
+}
+
+// describe asks the debugger for the thread's state without trusting it to answer.
+func (e *dbgEnv) describe() map[string]interface{} {
+	var d map[string]interface{}
+	if pm, hung := guarded(2*time.Second, func() { d, _ = e.dbg.Describe(e.tid).(map[string]interface{}) }); pm != "" || hung != "" {
+		e.dead = true
+		return nil
+	}
+	return d
 }
 
 var goidRe = regexp.MustCompile(`goroutine \d+`)
@@ -176,11 +187,14 @@ func (e *dbgEnv) observe() string {
 			return "finished"
 		default:
 		}
-		if d, _ := e.dbg.Describe(e.tid).(map[string]interface{}); d != nil {
+		if e.dead {
+			return e.st
+		}
+		if d := e.describe(); d != nil {
 			if running, _ := d["threadRunning"].(bool); !running {
 				// confirmed a little later: a thread which passes an error upwards is shown as not running for a moment
 				time.Sleep(time.Millisecond)
-				d2, _ := e.dbg.Describe(e.tid).(map[string]interface{})
+				d2 := e.describe()
 				if r2, _ := d2["threadRunning"].(bool); d2 == nil || r2 || atomic.LoadInt32(&e.ended) == 1 {
 					continue
 				}
@@ -231,7 +245,7 @@ func (e *dbgEnv) close() {
 }
 
 var dbgTokText = map[string]string{"num": "42", "tidx": "7777", "neg": "-1", "huge": "99999999999999999999", "float": "1.5", "word": "abc", "sl": "prog:2", "slx": "nosuch:3", "sln": "prog:-1",
-	"slh": "prog:99999999999999999999", "slw": "prog:x", "sle": "prog:", "cl": ":5", "sll": "a:1:2", "src": "prog", "resume": "resume", "stepin": "stepin", "stepover": "stepover",
+	"slh": "prog:99999999999999999999", "slw": "prog:x", "sle": "prog:", "cl": ":5", "sll": "a:1:2", "src": "prog", "srclong": "a-source-name-which-is-longer-than-every-breakpoint-key", "resume": "resume", "stepin": "stepin", "stepover": "stepover",
 	"stepout": "stepout", "STEPIN": "STEPIN", "var": "x", "novar": "zz", "badname": "1x", "expr": "1+2", "badexpr": "((", "true": "true", "false": "false"}
 
 type dbgCase struct {
@@ -418,6 +432,10 @@ func C16(r *ev.Run) {
 			rec := env.run(c.C, c.A)
 			emit(rec)
 			if rec.Class == "fault" || !rec.Alive {
+				break
+			}
+			if env.dead {
+				broken++
 				break
 			}
 			if c.C == "cont" && len(c.A) == 2 && c.A[0] == "tid" && env.st != "fresh" && env.st != "finished" && env.st != "running" {
